@@ -93,6 +93,12 @@ static ForestInfo& forestOf(const std::string &n)
     if (it == FORS.end()) throw Bad("unknown forest " + n);
     return it->second;
 }
+static ForestInfo& liveForest(const std::string &n)
+{
+    ForestInfo &fi = forestOf(n);
+    if (!fi.alive) throw Bad("forest " + n + " was destroyed");
+    return fi;
+}
 static dd_edge& edgeOf(const std::string &n)
 {
     auto it = EDGES.find(n);
@@ -101,7 +107,7 @@ static dd_edge& edgeOf(const std::string &n)
 }
 static dd_edge& freshEdge(const std::string &n, const std::string &fname)
 {
-    ForestInfo &fi = forestOf(fname);
+    ForestInfo &fi = liveForest(fname);
     auto it = EDGES.find(n);
     if (it != EDGES.end() && it->second) {
         delete it->second;
@@ -293,6 +299,10 @@ static void showEdge(const std::string &name)
 {
     dd_edge &e = edgeOf(name);
     ForestInfo &fi = forestOf(EDGEFOR[name]);
+    if (!fi.alive) {
+        emit(name + " detached attached=" + (e.getForest() ? "1" : "0"));
+        return;
+    }
     emit(name + " tab=" + tableOf(e, fi) + " dump=" + dumpOf(e, fi));
 }
 
@@ -325,8 +335,10 @@ static void cmd_init(const std::vector<std::string> &tk)
     LIB_UP = true;
 }
 
+static void dropIters();
 static void dropAllEdges()
 {
+    dropIters();
     for (auto &p : EDGES) { delete p.second; p.second = nullptr; }
     EDGES.clear();
     EDGEFOR.clear();
@@ -403,6 +415,93 @@ static void cmd_forest(const std::vector<std::string> &tk)
     fi.alive = true;
     fi.fid = fi.F->FID();
     FORS[tk[1]] = fi;
+    if (optval(tk, "showfid", "") == "1") {
+        char buf[64];
+        snprintf(buf, 64, "forest fid=%u", fi.fid);
+        emit(buf);
+    }
+}
+
+// ---------------------------------------------------------------------
+// C16 / C17: misuse and lifecycle commands
+// ---------------------------------------------------------------------
+
+static binary_factory& binOp(const std::string &s);
+
+static void cmd_destroyforest(const std::vector<std::string> &tk)
+{
+    ForestInfo &fi = forestOf(tk[1]);
+    if (!fi.alive) throw Bad("forest already destroyed");
+    forest::destroy(fi.F);
+    fi.alive = false;
+    fi.F = nullptr;
+}
+
+static void cmd_destroydomain(const std::vector<std::string> &tk)
+{
+    auto it = DOMS.find(tk[1]);
+    if (it == DOMS.end() || !it->second.alive) throw Bad("unknown domain");
+    domain::destroy(it->second.D);
+    it->second.alive = false;
+    for (auto &p : FORS) {
+        if (p.second.dom == tk[1]) { p.second.alive = false; p.second.F = nullptr; }
+    }
+}
+
+// attached A : 1 if the edge still has a forest
+static void cmd_attached(const std::vector<std::string> &tk)
+{
+    dd_edge &e = edgeOf(tk[1]);
+    emit(std::string("attached ") + (e.getForest() ? "1" : "0"));
+}
+
+// constinto E F v : F->createConstant(v, E) with E attached to whatever it is
+static void cmd_constinto(const std::vector<std::string> &tk)
+{
+    dd_edge &e = edgeOf(tk[1]);
+    ForestInfo &fi = forestOf(tk[2]);
+    fi.F->createConstant(parseVal(tk[3], fi.rt), e);
+    emit("constinto ok");
+}
+
+// applyinto X op A B : result into the existing edge X (whatever its forest)
+static void cmd_applyinto(const std::vector<std::string> &tk)
+{
+    dd_edge &x = edgeOf(tk[1]);
+    apply(binOp(tk[2]), edgeOf(tk[3]), edgeOf(tk[4]), x);
+    emit("applyinto ok");
+}
+
+// iterpast A : run an iterator to the end, then dereference it
+static void cmd_iterpast(const std::vector<std::string> &tk)
+{
+    dd_edge &a = edgeOf(tk[1]);
+    dd_edge::iterator it = a.begin();
+    long n = 0;
+    while (it) { ++it; if (++n > 1000000) break; }
+    const minterm &m = *it;        // must throw INVALID_ITERATOR
+    (void) m;
+    emit("iterpast no-error");
+}
+
+// evalx A : evaluate at the all-zero assignment (A may be detached)
+static void cmd_evalx(const std::vector<std::string> &tk)
+{
+    dd_edge &e = edgeOf(tk[1]);
+    ForestInfo &fi = forestOf(EDGEFOR[tk[1]]);
+    DomainInfo &di = DOMS[fi.dom];
+    if (!di.alive) {
+        // the minterm needs a live domain: use any live forest's domain
+        emit(std::string("evalx attached=") + (e.getForest() ? "1" : "0"));
+        return;
+    }
+    minterm m(di.D, fi.rel);
+    for (unsigned k=1; k<=di.sizes.size(); k++) {
+        if (fi.rel) m.setVars(k, 0, 0); else m.setVar(k, 0);
+    }
+    rangeval v;
+    e.evaluate(m, v);
+    emit("evalx " + valStr(v));
 }
 
 // ---------------------------------------------------------------------
@@ -633,6 +732,59 @@ static void cmd_iter(const std::vector<std::string> &tk)
         if (++count > 100000) { s += " OVERRUN"; break; }
     }
     emit(s);
+}
+
+// re-usable iterators: iter2 IT A limit [mask...]
+struct NamedIter { dd_edge::iterator* it; minterm* mask; };
+static std::map<std::string, NamedIter> ITERS;
+
+static void cmd_iter2(const std::vector<std::string> &tk)
+{
+    dd_edge &a = edgeOf(tk[2]);
+    ForestInfo &fi = forestOf(EDGEFOR[tk[2]]);
+    unsigned K = DOMS[fi.dom].sizes.size();
+    long limit = atol(tk[3].c_str());
+    bool usemask = tk.size() > 4;
+    minterm* mask = nullptr;
+    if (usemask) {
+        mask = new minterm(fi.F);
+        fillMinterm(*mask, fi, tk, 4);
+    }
+    auto f = ITERS.find(tk[1]);
+    dd_edge::iterator* it;
+    if (f == ITERS.end()) {
+        it = new dd_edge::iterator(a, mask);
+        NamedIter ni; ni.it = it; ni.mask = mask;
+        ITERS[tk[1]] = ni;
+    } else {
+        it = f->second.it;
+        it->restart(a, mask);
+        delete f->second.mask;
+        f->second.mask = mask;
+    }
+    std::string s = "iter";
+    long count = 0;
+    for (; *it; ++(*it)) {
+        if (limit >= 0 && count >= limit) break;
+        const minterm &m = **it;
+        s += " ";
+        for (unsigned k=K; k>=1; k--) {
+            char buf[32];
+            if (fi.rel) snprintf(buf, 32, "%d>%d", m.from(k), m.to(k));
+            else snprintf(buf, 32, "%d", m.from(k));
+            s += buf;
+            if (k>1) s += ".";
+        }
+        s += "=" + valStr(m.getValue());
+        if (++count > 100000) { s += " OVERRUN"; break; }
+    }
+    emit(s);
+}
+
+static void dropIters()
+{
+    for (auto &p : ITERS) { delete p.second.it; delete p.second.mask; }
+    ITERS.clear();
 }
 
 static void cmd_getelem(const std::vector<std::string> &tk)
@@ -1034,6 +1186,11 @@ static void run(const std::vector<std::string> &tk)
     else if (c == "range") cmd_range(tk);
     else if (c == "iter") cmd_iter(tk);
     else if (c == "getelem") cmd_getelem(tk);
+    else if (c == "iter2") cmd_iter2(tk);
+    else if (c == "dropiter") {
+        auto f = ITERS.find(tk[1]);
+        if (f != ITERS.end()) { delete f->second.it; delete f->second.mask; ITERS.erase(f); }
+    }
     else if (c == "show") showEdge(tk[1]);
     else if (c == "eq") {
         emit(std::string("eq ") + ((edgeOf(tk[1]) == edgeOf(tk[2])) ? "1" : "0"));
@@ -1061,6 +1218,13 @@ static void run(const std::vector<std::string> &tk)
     }
     else if (c == "audit") cmd_audit(tk);
     else if (c == "satpre") cmd_satpre(tk);
+    else if (c == "destroyforest") cmd_destroyforest(tk);
+    else if (c == "destroydomain") cmd_destroydomain(tk);
+    else if (c == "attached") cmd_attached(tk);
+    else if (c == "constinto") cmd_constinto(tk);
+    else if (c == "applyinto") cmd_applyinto(tk);
+    else if (c == "iterpast") cmd_iterpast(tk);
+    else if (c == "evalx") cmd_evalx(tk);
     else if (c == "write") cmd_write(tk);
     else if (c == "read") cmd_read(tk, false);
     else if (c == "readnew") cmd_read(tk, true);
